@@ -35,10 +35,11 @@ type cfg struct {
 	Faults     int // deviation budget of the relay
 	Two        bool
 	Preempt    int
+	Changing   bool // the resource changes between handler invocations (new body, new ETag); the server's stored response expires quickly
 }
 
 func (c cfg) String() string {
-	return fmt.Sprintf("udp two-party szx(client=%d,server=%d) up=%d down=%d style=%s con=%v transfers=%d faults<=%d preempt<=%d", c.SzxA, c.SzxB, c.Up, c.Down, c.Style, c.CON, map[bool]int{false: 1, true: 2}[c.Two], c.Faults, c.Preempt)
+	return fmt.Sprintf("udp two-party szx(client=%d,server=%d) up=%d down=%d style=%s con=%v transfers=%d faults<=%d preempt<=%d changing=%v", c.SzxA, c.SzxB, c.Up, c.Down, c.Style, c.CON, map[bool]int{false: 1, true: 2}[c.Two], c.Faults, c.Preempt, c.Changing)
 }
 
 // position-dependent pattern: offset errors are visible
@@ -85,10 +86,16 @@ func scenario(c cfg) *mcx.Scenario {
 				extra string
 			}
 			handlerCalls := map[string][]rec{} // by token
+			var versions [][]byte
+			version := byte(0)
 			var A, B *udpw.World
 			vrt.App("relay", func() {
 				A = udpw.New(udpw.Opts{NStart: 4, MaxRetransmit: 2, LimitTotal: 4, LimitEndpoint: 4, QueueSize: 8, BlockWise: true, SZX: c.SzxA, FirstMID: 1000, BWTimeout: 20 * time.Second})
-				B = udpw.New(udpw.Opts{NStart: 4, MaxRetransmit: 2, LimitTotal: 4, LimitEndpoint: 4, QueueSize: 8, BlockWise: true, SZX: c.SzxB, FirstMID: 3000, BWTimeout: 20 * time.Second,
+				bwTimeoutB := 20 * time.Second
+				if c.Changing {
+					bwTimeoutB = 3 * time.Second
+				}
+				B = udpw.New(udpw.Opts{NStart: 4, MaxRetransmit: 2, LimitTotal: 4, LimitEndpoint: 4, QueueSize: 8, BlockWise: true, SZX: c.SzxB, FirstMID: 3000, BWTimeout: bwTimeoutB,
 					Handler: func(w *responsewriter.ResponseWriter[*client.Conn], r *pool.Message) {
 						track.Hold(r, "request inside a handler")
 						defer track.Unhold(r)
@@ -103,7 +110,13 @@ func scenario(c cfg) *mcx.Scenario {
 						handlerCalls[k] = append(handlerCalls[k], rec{append([]byte{}, b...), p, fmt.Sprint(cf), string(ex)})
 						for _, t := range trs {
 							if t != nil && fmt.Sprintf("%x", []byte(t.token)) == k {
-								if t.down != nil {
+								if t.down != nil && c.Changing {
+									// every invocation serves a new representation: other bytes, other ETag
+									version++
+									v := pattern(len(t.down), 0x30+version)
+									versions = append(versions, v)
+									_ = w.SetResponse(codes.Content, message.AppOctets, bytes.NewReader(v), message.Option{ID: message.ETag, Value: []byte{0xE0, version}})
+								} else if t.down != nil {
 									_ = w.SetResponse(codes.Content, message.AppOctets, bytes.NewReader(t.down))
 								} else {
 									_ = w.SetResponse(codes.Changed, message.TextPlain, nil)
@@ -208,6 +221,9 @@ func scenario(c cfg) *mcx.Scenario {
 					if len(delivered) > 0 {
 						acts = append(acts, act{"replay-old", 1})
 					}
+					if c.Changing {
+						acts = append(acts, act{"wait", 1}) // let 3.5 s pass although datagrams are in flight
+					}
 					costs := make([]int8, len(acts))
 					for i, a := range acts {
 						costs[i] = a.cost
@@ -229,6 +245,11 @@ func scenario(c cfg) *mcx.Scenario {
 					case "swap":
 						hist = append(hist, "SWAP("+flight[1].desc+" before "+flight[0].desc+")")
 						flight[0], flight[1] = flight[1], flight[0]
+					case "wait":
+						hist = append(hist, "WAIT(3.5s)")
+						vrt.Advance(3500 * time.Millisecond)
+						A.CC.CheckExpirations(vrt.Now())
+						B.CC.CheckExpirations(vrt.Now())
 					case "replay-old":
 						k := vrt.Choose(len(delivered), nil)
 						hist = append(hist, "REPLAY("+delivered[k].desc+")")
@@ -280,7 +301,13 @@ func scenario(c cfg) *mcx.Scenario {
 						if t.gotBody == nil {
 							t.gotBody = []byte{}
 						}
-						if !bytes.Equal(t.gotBody, wantDown) {
+						okBody := bytes.Equal(t.gotBody, wantDown)
+						for _, v := range versions {
+							if bytes.Equal(t.gotBody, v) {
+								okBody = true // any complete representation the server application supplied
+							}
+						}
+						if !okBody {
 							fail("client-got-wrong-body", "Do(%d) returned %d bytes %s, the server sent %d bytes %s", i, len(t.gotBody), head(t.gotBody), len(wantDown), head(wantDown))
 						}
 					}
@@ -344,6 +371,12 @@ func main() {
 		}
 	}
 	scs = append(scs, scenario(cfg{SzxA: 0, SzxB: 0, Up: 33, Down: -1, Style: "do", CON: true, Two: true, Faults: ev.Pick(r, 1, 2), Preempt: ev.Pick(r, 0, 1)}))
+	for _, con := range []bool{true, false} {
+		// the resource changes while a download is in progress (stored response expires after a lost block request)
+		scs = append(scs, scenario(cfg{SzxA: 0, SzxB: 0, Up: -1, Down: 40, Style: "do", CON: con, Faults: ev.Pick(r, 2, 3), Changing: true}))
+		// two one-way block-wise writes issued concurrently on one connection
+		scs = append(scs, scenario(cfg{SzxA: 0, SzxB: 0, Up: 33, Down: -1, Style: "write", CON: con, Two: true, Faults: ev.Pick(r, 0, 1), Preempt: ev.Pick(r, 1, 2)}))
+	}
 	scs = append(scs, scenario(cfg{SzxA: 0, SzxB: 0, Up: -1, Down: 33, Style: "do", CON: false, Two: true, Faults: ev.Pick(r, 1, 2), Preempt: ev.Pick(r, 0, 1)}))
 	addStream(r, &scs)
 	sum := mcx.Explore(r, scs, mcx.Config{Wall: ev.Pick(r, 4*time.Minute, 30*time.Minute)})
